@@ -409,5 +409,6 @@ pub fn run(rep: &mut Report, tier: &str) {
     rep.require("cases.safe", (n / 2) as u64);
     rep.require("merges_completed", n as u64);
     rep.require("split_points", n as u64);
+    rep.require("attributions_checked", 10 * n as u64);
     rep.require("negative_cases", 10);
 }
